@@ -1208,12 +1208,10 @@ def join(
         right >>= rename({col: col.name + user_suffix for col in right})
 
     elif right_names & left_names:
+        # find the first suffix that resolves the collisions for all right columns
         cnt = 0
-        for name in right_names:
-            suffixed = name + suffix + (f"_{cnt}" if cnt > 0 else "")
-            while suffixed in left_names:
-                cnt += 1
-                suffixed = name + suffix + f"_{cnt}"
+        while any(name + suffix + (f"_{cnt}" if cnt > 0 else "") in left_names for name in right_names):
+            cnt += 1
 
         if cnt > 0:
             suffix += f"_{cnt}"
@@ -1223,9 +1221,11 @@ def join(
         )
         right_on_names = set(col.name for col in right if col._uuid in on_uuids)
 
-        if not (right_names - right_on_names) & left_names:
+        if not (right_names - right_on_names) & left_names and not any(
+            name + suffix in right_names for name in right_names & left_names
+        ):
             # If nothing except join columns clashes, we only rename the clashing
-            # columns on the right.
+            # columns on the right (unless this clashes with another right column).
             right >>= rename({col: col.name + suffix for col in right if col.name in left_names})
 
         else:
